@@ -67,6 +67,11 @@ def value_map_for(fl, st, mode):
         return True
     if mode == "off":
         return False
+    if mode == "partial":
+        # a caller-supplied map on a mapper key (int values) that does not list rank 2: a tree holding such a value
+        # cannot be written "exactly as the header declares" - the writer has to refuse, never to write the value
+        # verbatim (it would be read back as an index)
+        return {"rank": [3, 1, 9, 8, 7]}
     vm = {}
     if fl.typed:
         vm["kind"] = [flavours.KINDS[k] for k in (3, 2, 1)]  # a custom order, all kinds listed
@@ -128,7 +133,7 @@ def decode_saved(text, fl):
                 lk = inv.get(k, k)
                 if lk in vm:
                     if isinstance(v, int) and not isinstance(v, bool):
-                        v = vm[lk][v]
+                        v = vm[lk][v] if 0 <= v < len(vm[lk]) else "<index out of range>"
                     else:  # the header declares a value map for this key, but the value is stored unshortened
                         values_short = False
                 full[lk] = v
@@ -218,7 +223,7 @@ MALFORMED = {
 def option_grid(fl, quick, salt):
     """(key_map, value_map, compression, target, derived) combinations; quick: a rotating pairwise sample"""
     kms = list(KEY_MAPS)
-    vms = ["default", "off", "custom"]
+    vms = ["default", "off", "custom"] + ([] if fl.is_str else ["partial"])
     comps = list(COMPRESSIONS)
     full = []
     for km, vm in itertools.product(kms, vms):
@@ -230,7 +235,11 @@ def option_grid(fl, quick, salt):
     if not quick:
         return full
     n = len(full)
-    return [full[(salt * 7 + i * 11) % n] for i in range(6)]
+    pick = [full[(salt * 7 + i * 11) % n] for i in range(6)]
+    part = [f for f in full if f[1] == "partial"]
+    if part and not any(f[1] == "partial" for f in pick):
+        pick.append(part[(salt * 5) % len(part)])
+    return pick
 
 
 def obs_serial(c: Ctx, enc, *, props, quick=True, salt=0, tmpdir=None):
@@ -329,6 +338,8 @@ def obs_serial(c: Ctx, enc, *, props, quick=True, salt=0, tmpdir=None):
             cls = tree_class(fl, derived)
             a = {"key_map": km_mode, "value_map": vm_mode, "compression": comp, "target": target, "derived": derived,
                  "is_str": fl.is_str}
+            if vm_mode == "partial":   # a value occurs that the caller's map does not list
+                a["partial"] = any(st["par"][i] != -1 and st["dat"][i] == 2 for i in range(st["n"]))
             # what the header must declare: the maps in use
             a["key_map_used"] = km_arg is True or bool(km_arg)
             a["value_map_used"] = (vm_arg is not False) if fl.typed else (isinstance(vm_arg, dict) and bool(vm_arg))
@@ -381,6 +392,8 @@ def obs_serial(c: Ctx, enc, *, props, quick=True, salt=0, tmpdir=None):
                             "src_same": core.project(b)["st"] == before}
                 if saved["s"] == "ok":
                     out.append({"q": "roundtrip", "a": a, "r": call(do_load, norm_load)})
+                elif a.get("partial"):
+                    pass    # legitimately refused: nothing to read back
                 else:
                     out.append({"q": "roundtrip", "a": a, "r": {"s": "save:" + saved["s"], "v": 0}})
             if text_holder.get("path"):
@@ -402,6 +415,9 @@ def obs_serial(c: Ctx, enc, *, props, quick=True, salt=0, tmpdir=None):
                                 "value_map": ({"kind": [flavours.KINDS[k] for k in (2, 1, 3)]} if fl.typed else
                                               ({"name": list(flavours.NAMES)} if is_item else {}))},
             "dicts_only": {"bare_ok": False},
+            # values shortened, keys verbose: a header with $value_map but no $key_map (save(key_map=False) writes it)
+            "valuemap_only": {"value_map": ({"kind": [flavours.KINDS[k] for k in (3, 1, 2)]} if fl.typed else
+                                            ({"name": list(reversed(flavours.NAMES))} if is_item else {}))},
         }
         def deser_short(parent, data):   # mapper of a user whose own keys are 's' and 'i'
             return Item(data["s"], data["i"]) if "s" in data else deser_mapper(parent, data)
